@@ -7,7 +7,7 @@ PROP = "C12"
 PROP_FILE = "Properties/C12.v"
 
 SERR = {"uri_count": 1, "email": 2, "scheme": 3, "unescape": 4, "format": 5, "unsupported": 6,
-        "denied": 7, "datacenter": 8, "trust_domain": 9, "not_agent": 10, "wrong_node": 11}
+        "denied": 7, "datacenter": 8, "trust_domain": 9, "not_agent": 10, "wrong_node": 11, "decorated": 12}
 CERR = {"one_active": "EOneActive", "active_overwritten": "EActiveOverwritten", "missing_id": "EMissingID", "config_cas": "EConfigCAS",
         "invalid_op": "EInvalidOp"}
 
@@ -18,7 +18,7 @@ def hs(h):
 
 
 def url_coq(u):
-    return "Url %s %s %s %s %s" % (hs(u["scheme"]), hs(u["host"]), hs(u["path"]), hs(u["raw"]), coq_bool(u["plain"]))
+    return "Url %s %s %s %s %s" % (hs(u["scheme"]), hs(u["host"]), hs(u["path"]), hs(u["raw"]), ("DNone", "DUser", "DForm")[u["deco"]])
 
 
 def tab_coq(t):
@@ -162,7 +162,7 @@ def run(ctx):
     cov = dict(info)
     cov["trusted_base"] = vlib.STD_TRUSTED + [
         "the ACL authorizer is an arbitrary function in the theorems; on cases it is the real acl.Authorizer tabulated on every name occurring in the request",
-        "net/url: the model re-implements unescape, escape(encodePath), validEncoded, EscapedPath and setPath; the byte classes (shouldEscape for paths, hex digits, validEncoded) are tabulated from net/url on every run and compared in Coq; scheme/host/userinfo/query/fragment handling of url.Parse and URL.String is summarised by the fields Scheme, Host and one 'plain' bit read from the real *url.URL",
+        "net/url: the model re-implements unescape, escape(encodePath), validEncoded, EscapedPath and setPath; the byte classes (shouldEscape for paths, hex digits, validEncoded) are tabulated from net/url on every run and compared in Coq; scheme/host/userinfo/query/fragment handling of url.Parse and URL.String is summarised by the fields Scheme, Host and a three-valued mark (nothing / userinfo-query-fragment / opaque-or-omit-host) read from the real *url.URL",
         "regexp: the four anchored identity patterns are modelled as shapes of the '/'-split path",
         "modelled, not verified: X.509/ASN.1 encoding, signatures, validity periods and chain validation (the direct oracle checks x509.Verify against the store's active root on every issued leaf: 'chains to the currently active root' is checked, not proved); rate limiting; external CA providers (Vault, AWS); secondary datacenters",
         "the auto-config entry point is the real AutoConfig.InitialConfiguration with a stand-in authorizer (a JWT that validates for the node): parseAutoConfigCSR is the real one, the node-name comparison of jwtAuthorizer.Authorize is copied in the hook file",
